@@ -35,7 +35,7 @@ func c06Stop(x *mc.Cell) {
 				roles := []Role{InitPush, RespPull, InitPull}
 				var chids []datatransfer.ChannelID
 				for i := 0; i < nch; i++ {
-					c, err := s.Create(roles[i], uint64(i+1), doubles.Voucher("T", "v"))
+					c, err := s.Create(roles[i], uint64(i/2+1), doubles.Voucher("T", "v")) // the first two channels share a transfer id
 					if err != nil {
 						panic(err)
 					}
